@@ -244,6 +244,7 @@ def check_pwl_constraints():
     x = variable(1, 'x')
     y = variable(3, 'y')
     u = variable(3, 'u')
+    w2 = variable(2, 'w2')
     v = matrix([1.0, 2.0, 3.0])
     one = matrix(1.0, (1, 3))
     cases = [
@@ -255,6 +256,11 @@ def check_pwl_constraints():
                                                     u >= v]), 3.0),
         ('sum(max(y, x)) <= 9, y == v', lambda: op(-x, [
             msum(mmax(y, x)) <= 9, y == v]), -3.0),
+        ('sum(max(x, y)) <= 9 (scalar argument first), y == v',
+         lambda: op(-x, [msum(mmax(x, y)) <= 9, y == v]), -3.0),
+        ('w2 + max(y) <= (10, 20), y == (1, 2, 5)', lambda: op(
+            -matrix(1.0, (1, 2)) * w2, [w2 + mmax(y) <= matrix([10., 20.]),
+                                        y == matrix([1., 2., 5.])]), -20.0),
         ('max(x, 0) + max(2x, 1) <= 4', lambda: op(-x, [
             mmax(x, 0) + mmax(2 * x, 1) <= 4]), -4.0 / 3),
         ('max(y, u, 0) <= v (vector)', lambda: op(-one * y - one * u, [
